@@ -371,7 +371,14 @@ def f51():
     return True
 
 
-for name, fn in (("F36", f36), ("F37", f37), ("F38", f38), ("F39", f39), ("F40", f40), ("F41", f41), ("F42", f42), ("F43", f43), ("F44", f44), ("F45", f45), ("F46", f46), ("F47", f47), ("F48", f48), ("F49", f49), ("F50", f50), ("F51", f51)):
+def f52():
+    """C08 (C16): the sum of two curves on the same knot vector with control points 2**62 wrapped around in int64 before the repair"""
+    U = [F(0), F(0), F(1), F(1)]
+    S = Curve(U, [2**62, 1]) + Curve(U, [2**62, 1])
+    return True if tuple(S.ctrlpoints) == (2**63, 2) else tuple(S.ctrlpoints)
+
+
+for name, fn in (("F36", f36), ("F37", f37), ("F38", f38), ("F39", f39), ("F40", f40), ("F41", f41), ("F42", f42), ("F43", f43), ("F44", f44), ("F45", f45), ("F46", f46), ("F47", f47), ("F48", f48), ("F49", f49), ("F50", f50), ("F51", f51), ("F52", f52)):
     if len(sys.argv) > 1 and name not in sys.argv[1:]:
         continue
     t(name, fn)
